@@ -113,7 +113,7 @@ def ref_apply(state, calls, op, n, passthrough):
         if pk == 'result':
             return ('result', 'r%d' % pn)
         if pk == 'error':
-            return ('error', 1000 + pn)
+            return ('error', 1000 + pn, err_view(pn))
         if pk == 'cbraise':
             return ('exc', 'RuntimeError', 'cbraise %d' % pn)
         if pk == 'cbnested':
@@ -192,6 +192,18 @@ def canon_norm(st):
 
 
 # ---- real system ------------------------------------------------------------------------------------------------------
+def err_data(n):
+    """the data configured for error patch n: falsy-but-set values, a truthy one, and (every fifth) no data at all"""
+    from pjrpc.common import UNSET
+    return [0, '', [], {}, UNSET, False, None, {'k': n}][n % 8]
+
+
+def err_view(n):
+    from pjrpc.common import UNSET
+    d = err_data(n)
+    return '<absent>' if d is UNSET else d
+
+
 def make_raising_cb(n):
     def cb(*args, **kwargs):
         raise RuntimeError('cbraise %d' % n)
@@ -238,7 +250,8 @@ def make_nested_cb(n, kind, cls, e):
         except ConnectionRefusedError:
             return ['nested%d' % n, ['refused']]
         if r.is_error:
-            inner = ['notfound'] if r.error.code == -32601 else ['error', r.error.code]
+            from pjrpc.common import UNSET as _U
+            inner = ['notfound'] if r.error.code == -32601 else ['error', r.error.code, '<absent>' if r.error.data is _U else r.error.data]
         elif r.result == 'REAL':
             inner = ['passthrough']
         else:
@@ -252,14 +265,14 @@ def real_apply(kind, mocker, cls, op, n):
     k = op[0]
     if k == 'add':
         _, e, m, pk, once = op
-        kw = dict(result='r%d' % n) if pk == 'result' else (dict(error=JsonRpcError(1000 + n, 'e%d' % n)) if pk == 'error' else
+        kw = dict(result='r%d' % n) if pk == 'result' else (dict(error=JsonRpcError(1000 + n, 'e%d' % n, data=err_data(n))) if pk == 'error' else
                                                            dict(callback=make_raising_cb(n) if pk == 'cbraise' else (make_nested_cb(n, kind, cls, e) if pk == 'cbnested' else make_cb(n))))
         mocker.add(EPS[e], m, once=once, **kw)
         return None
     if k == 'replace':
         e, m, idx = op[1], op[2], op[3]
         pk, once = (op[4], op[5]) if len(op) > 4 else ('result', False)
-        kw = dict(result='r%d' % n) if pk == 'result' else (dict(error=JsonRpcError(1000 + n, 'e%d' % n)) if pk == 'error' else dict(callback=make_cb(n)))
+        kw = dict(result='r%d' % n) if pk == 'result' else (dict(error=JsonRpcError(1000 + n, 'e%d' % n, data=err_data(n))) if pk == 'error' else dict(callback=make_cb(n)))
         mocker.replace(EPS[e], m, idx=idx, once=once, **kw)
         return None
     if k == 'remove':
@@ -292,7 +305,10 @@ def real_apply(kind, mocker, cls, op, n):
             if resp.id != want_id or type(resp.id) is not type(want_id):
                 return ('wrong-id', resp.id, want_id)
             if resp.is_error:
-                return ('error', resp.error.code)
+                from pjrpc.common import UNSET as _U
+                if resp.error.code == -32601:
+                    return ('error', resp.error.code)
+                return ('error', resp.error.code, '<absent>' if resp.error.data is _U else resp.error.data)
             if resp.result == 'REAL':
                 return ('passthrough',)
             return ('result', resp.result)
@@ -530,6 +546,40 @@ def run_backends(ctx):
                     elif calls != {url: {('2.0', 'm'): 1}}:
                         rec.violation('C20:backends:recorded calls differ from the calls made', c, expected={url: {('2.0', 'm'): 1}}, observed=repr(calls))
                     rec.counters['backend cases'] += 1
+    # passthrough=True: a request to an endpoint without patches goes to the REAL transport of the backend (an in-process one here),
+    # as call, notification and batch
+    import json as _json
+    from mc.harness.backends import make_backend_client
+
+    def real_handler(req):
+        doc = _json.loads(req['body'].decode('utf-8'))
+        elems = doc if isinstance(doc, list) else [doc]
+        out = [dict(jsonrpc='2.0', id=e['id'], result='REAL') for e in elems if 'id' in e]
+        body = b'' if not out else _json.dumps(out if isinstance(doc, list) else out[0]).encode()
+        return 200, [('Content-Type', 'application/json')], body
+    for name, path, is_async in targets:
+        with PjRpcMocker(target=path + '._request', passthrough=True) as mocker:
+            mocker.add('http://patched/api', 'm', result='MOCKED')
+            client = make_backend_client(name, real_handler)          # built for http://rpc.test/api: no patches there
+            for what, thunk, want in (('call', lambda: client.call('m', 1), 'REAL'), ('notification', lambda: client.notify('m', 1), None),
+                                      ('batch', lambda: client.batch.add('m', 1).add('n', 2).call(), ('REAL', 'REAL'))):
+                try:
+                    r = thunk()
+                    if is_async:
+                        loop = VLoop()
+                        try:
+                            r = loop.run(r)
+                        finally:
+                            loop.close()
+                    got = ('ok', r)
+                except Exception as e:   # noqa
+                    got = ('exc', type(e).__name__, str(e)[:100])
+                rec.transitions += 1
+                if got != ('ok', want):
+                    rec.violation('C20:backends:a request to an endpoint without patches was not passed through to the real transport', dict(part='backends', backend=name, request=what),
+                                  expected=('ok', want), observed=got)
+            rec.traces += 1
+            rec.counters['backend passthrough cases'] += 1
 
 
 def run(ctx):
